@@ -129,8 +129,13 @@ func (ex *Exec) callModular(callee *ssa.Function, cfc *FuncContract, args []Valu
 	var res Value
 	rs := callee.Signature.Results()
 	var rvals []Value
-	for i := 0; i < rs.Len(); i++ {
-		rvals = append(rvals, ex.freshValue(fmt.Sprintf("ret.%s.%d", tag, i), rs.At(i).Type(), st))
+	if cr := ex.top.concreteRet[FuncKey(callee)]; cr != nil {
+		// case split on the callee's result: its postconditions then constrain the inputs
+		rvals = append(rvals, cr...)
+	} else {
+		for i := 0; i < rs.Len(); i++ {
+			rvals = append(rvals, ex.freshValue(fmt.Sprintf("ret.%s.%d", tag, i), rs.At(i).Type(), st))
+		}
 	}
 	switch len(rvals) {
 	case 0:
@@ -492,7 +497,7 @@ func (ex *Exec) pointDirectives(point string, blk *ssa.BasicBlock, pc *Term, st 
 		return
 	}
 	for _, d := range ex.fc.Dirs {
-		if d.Kind != "lemma" && d.Kind != "assume_def" && d.Kind != "lemma_chain" {
+		if d.Kind != "lemma" && d.Kind != "assume_def" && d.Kind != "lemma_chain" && d.Kind != "cut_reg" {
 			continue
 		}
 		if !strings.HasPrefix(d.Text, point+" ") {
@@ -507,7 +512,50 @@ func (ex *Exec) pointDirectives(point string, blk *ssa.BasicBlock, pc *Term, st 
 		if li == nil && blk != nil {
 			li = ex.inLoop[blk]
 		}
-		ctx := &Ctx{ex: ex, fn: ex.fn, fc: ex.fc, st: st, old: ex.entry, params: ex.paramMap(), pc: pc, loop: li}
+		ctx := &Ctx{ex: ex, fn: ex.fn, fc: ex.fc, st: st, old: ex.entry, params: ex.paramMap(), pc: pc, loop: li, blk: blk}
+		if d.Kind == "cut_reg" {
+			// "havoc x : expr": prove expr, then replace the local x by a fresh symbol constrained by expr
+			f := strings.SplitN(text, ":", 2)
+			name := strings.TrimSpace(strings.TrimPrefix(f[0], "havoc "))
+			expr := strings.TrimSpace(f[1])
+			t := ctx.evalBool(expr)
+			ex.vc.Oblige(ex.obName("cut", d.Label), "cut", Implies(pc, t))
+			cur, ok := ctx.lookupName(name)
+			if !ok {
+				ex.unsupported("cut_reg: unknown local %s", name)
+			}
+			var target ssa.Value
+			for v, x := range ex.env {
+				if x == cur {
+					if ins, ok := v.(ssa.Instruction); ok && ins.Block() != nil && (ins.Block() == blk || ins.Block().Dominates(blk)) {
+						for _, cand := range ex.dbg[name] {
+							if cand == v {
+								target = v
+							}
+						}
+						if p, ok := v.(*ssa.Phi); ok && p.Comment == name {
+							target = v
+						}
+					}
+				}
+			}
+			if target == nil {
+				ex.unsupported("cut_reg: cannot locate the register of %s", name)
+			}
+			ct, _ := cur.(*Term)
+			if ct == nil {
+				ex.unsupported("cut_reg: %s is not a scalar", name)
+			}
+			sym := ex.vc.Fresh("cut."+name, ct.Sort)
+			ex.env[target] = sym
+			if ex.top.cutRegs == nil {
+				ex.top.cutRegs = map[string]*Term{}
+			}
+			ex.top.cutRegs[name] = sym
+			ctx2 := &Ctx{ex: ex, fn: ex.fn, fc: ex.fc, st: st, old: ex.entry, params: ex.paramMap(), pc: pc, loop: li, blk: blk, extra: map[string]Value{name: sym}}
+			ex.vc.Assume(Implies(pc, ctx2.evalBool(expr)))
+			continue
+		}
 		if ex.curPhi != nil {
 			ctx.extra = map[string]Value{ex.curPhi.Comment: ex.env[ex.curPhi]}
 		}
